@@ -140,6 +140,62 @@ Proof.
   unfold in_d8, absdiff. rewrite <- Hp, <- Hc. rewrite Dq, Dm, Dq0, Dm0.
   apply andb_true_iff. split; apply Nat.leb_le; lia.
 Qed.
+
+(* ---------- eam_plus / ihu: the fall-back link to the first effective-area pixel ---------- *)
+Lemma near_in_d8 R0 C0 p : C0 < ncol -> near cs R0 (prow p) -> near cs C0 (pcol p) ->
+  in_d8 (R0 * ncol + C0) (cellof p) ncol = true.
+Proof.
+  intros HC0 [N1 N2] [N3 N4]. rewrite cellof_eq. pose proof (ccol_lt p) as HCp.
+  assert (D1 : forall q c, c < ncol -> (q * ncol + c) / ncol = q /\ (q * ncol + c) mod ncol = c).
+  { intros q c Hc'. split; [symmetry; apply (Nat.div_unique _ _ q c); lia|symmetry; apply (Nat.mod_unique _ _ q c); lia]. }
+  destruct (D1 (band cs (prow p)) _ HCp) as [Dq Dm]. destruct (D1 R0 _ HC0) as [Dq0 Dm0].
+  unfold in_d8, absdiff. rewrite Dq, Dm, Dq0, Dm0. apply andb_true_iff. split; apply Nat.leb_le; lia.
+Qed.
+
+Section WalkPlus.
+Variables R0 C0 idx0 : nat.
+Variable out : list nat.
+Hypothesis Hidx : idx0 = R0 * ncol + C0.
+Hypothesis HC0 : C0 < ncol.
+
+Lemma ihu_walk_d8 fuel : forall s fe t, s < nsub -> sd s < nsub ->
+  (fe = None -> side cs R0 (prow s) /\ side cs C0 (pcol s)) ->
+  (forall x, fe = Some x -> near cs R0 (prow x) /\ near cs C0 (pcol x)) ->
+  ihu_walk sds subncol cs ncol ea fuel out idx0 s fe = Some t -> in_d8 idx0 (cellof t) ncol = true.
+Proof.
+  induction fuel as [|f IH]; intros s fe t Hs Hd Hside Hfe Hw; cbn [ihu_walk] in Hw; [discriminate|].
+  destruct ((nth (cellof (sd s)) out nsub =? sd s) || (sd s =? s)).
+  - destruct (in_d8 idx0 (cellof (sd s)) ncol) eqn:E8; [inversion Hw; subst t; exact E8|].
+    destruct (Hfe t Hw) as [N1 N2]. rewrite Hidx. apply near_in_d8; auto.
+  - apply (IH (sd s) _ t Hd (Hwf s Hs Hd)) in Hw; [exact Hw| |].
+    + (* no effective-area pixel so far: still on the near side of the middle lines *)
+      intros Hnone. destruct fe as [y|]; [discriminate|].
+      destruct (eaf ea (sd s)) eqn:Ee; [discriminate|].
+      destruct (Hside eq_refl) as [Sr Sc]. destruct (pixel_step s Hs Hd) as (P1 & P2 & P3 & P4).
+      destruct (side_step cs Hcs R0 (prow s) (prow (sd s)) Sr P1 P2) as [Sr'|[Mr _]];
+        [|rewrite (Hcross (sd s) Hd (Hwf s Hs Hd) (or_introl Mr)) in Ee; discriminate].
+      destruct (side_step cs Hcs C0 (pcol s) (pcol (sd s)) Sc P3 P4) as [Sc'|[Mc _]];
+        [|rewrite (Hcross (sd s) Hd (Hwf s Hs Hd) (or_intror Mc)) in Ee; discriminate].
+      split; assumption.
+    + intros x Hx. destruct fe as [y|]; [apply Hfe; exact Hx|].
+      destruct (eaf ea (sd s)) eqn:Ee; [|discriminate]. inversion Hx; subst x.
+      destruct (Hside eq_refl) as [Sr Sc]. destruct (pixel_step s Hs Hd) as (P1 & P2 & P3 & P4).
+      split.
+      * destruct (side_step cs Hcs R0 (prow s) (prow (sd s)) Sr P1 P2) as [Sr'|[_ Nr]]; [apply side_near; assumption|exact Nr].
+      * destruct (side_step cs Hcs C0 (pcol s) (pcol (sd s)) Sc P3 P4) as [Sc'|[_ Ncn]]; [apply side_near; assumption|exact Ncn].
+Qed.
+End WalkPlus.
+
+(* every link of ihu_nextidx (eam_plus) joins a cell with itself or one of its eight neighbours, whichever branch
+   produced it: the next outlet pixel / pit (tested explicitly by the code) or the first effective-area pixel *)
+Theorem eam_plus_links_d8 out idx0 s t : s < nsub -> sd s < nsub -> cellof s = idx0 ->
+  ihu_walk sds subncol cs ncol ea (S nsub) out idx0 s None = Some t -> in_d8 idx0 (cellof t) ncol = true.
+Proof.
+  intros Hs Hd Hc Hw. pose proof (ccol_lt s) as HC0. rewrite cellof_eq in Hc.
+  apply (ihu_walk_d8 (band cs (prow s)) (band cs (pcol s)) idx0 out (eq_sym Hc) HC0 (S nsub) s None t Hs Hd); auto.
+  - intros _. split; left; reflexivity.
+  - intros x Hx. discriminate.
+Qed.
 End EamD8.
 
 (* the hypothesis on the effective area as a boolean check (run on the effective-area map of the implementation) *)
@@ -168,5 +224,16 @@ Theorem eam_links_d8_checked sds upa subncol cs nrow ncol ea : 0 < cs -> 0 < sub
   in_d8 idx0 r ncol = true.
 Proof.
   intros Hcs HW Hnc Hwf Hd8 Hck. apply (eam_links_d8 sds upa subncol cs nrow ncol ea Hcs HW Hnc Hwf Hd8).
+  apply check_cross_sound. exact Hck.
+Qed.
+
+Theorem eam_plus_links_d8_checked sds subncol cs ncol ea : 0 < cs -> 0 < subncol -> subncol <= ncol * cs ->
+  (forall t, t < length sds -> Upscale.sd sds t < length sds -> Upscale.sd sds (Upscale.sd sds t) < length sds) ->
+  (forall t, t < length sds -> Upscale.sd sds t < length sds -> in_d8 t (Upscale.sd sds t) subncol = true) ->
+  check_cross sds ea subncol cs = true ->
+  forall out idx0 s t, s < length sds -> Upscale.sd sds s < length sds -> cellof subncol cs ncol s = idx0 ->
+  ihu_walk sds subncol cs ncol ea (S (length sds)) out idx0 s None = Some t -> in_d8 idx0 (cellof subncol cs ncol t) ncol = true.
+Proof.
+  intros Hcs HW Hnc Hwf Hd8 Hck. apply (eam_plus_links_d8 sds subncol cs ncol ea Hcs HW Hnc Hwf Hd8).
   apply check_cross_sound. exact Hck.
 Qed.
